@@ -118,7 +118,8 @@ func scanSpaceToken(buf string, pos int) Token {
 			i = end - pos + 2
 		}
 		if isStringAt(buf, pos+i, "//") {
-			for ; !isCharAt(buf, pos+i, '\n'); i++ {
+			// stop at end of input too: a file may end inside a line comment
+			for ; pos+i < len(buf) && !isCharAt(buf, pos+i, '\n'); i++ {
 			}
 		}
 	}
